@@ -130,6 +130,22 @@ pub fn workload(seed: u64, shard: usize, of: usize, cases: usize, miri: bool) ->
             let r = guarded_any(|| xt::verif::yaml_chunks(mk(), 1 + rng.below(3)).len());
             bump(if r.is_ok() { "panicky_reader_chunker_returned" } else { "panicky_reader_chunker_panicked" }, 1);
         }
+        // 3c. safe readers that rely on the buffer they are handed being initialised memory: one looks at the
+        //     buffer's old contents before filling it, one reports n bytes having stored n-1
+        for (inspect, skip_last) in [(true, false), (false, true)] {
+            let max_read = *rng.pick(&[1usize, 7, 97, 4096, 1 << 20]);
+            let mk = || crate::mon::LazyReader { data: &input, pos: 0, max_read, inspect, skip_last, checksum: 0 };
+            let r = guarded_any(|| xt::verif::yaml_events_then_drop(mk(), usize::MAX));
+            bump(if r.is_ok() { "lazy_reader_raw_parser_returned" } else { "lazy_reader_raw_parser_panicked" }, 1);
+            let mut out = Vec::new();
+            let r = guarded_any(|| xt::translate_reader(mk(), Some(xt::Format::Yaml), to.xt(), &mut out).is_ok());
+            bump(if r.is_ok() { "lazy_reader_api_returned" } else { "lazy_reader_api_panicked" }, 1);
+            if !miri {
+                let mut out = Vec::new();
+                let r = guarded_any(|| xt::translate_reader(mk(), None, to.xt(), &mut out).is_ok());
+                bump(if r.is_ok() { "lazy_reader_api_returned" } else { "lazy_reader_api_panicked" }, 1);
+            }
+        }
         // (large boundary inputs: the event-by-event stages below add nothing)
         if input.len() > 30_000 {
             let _ = guarded_any(|| xt::verif::yaml_chunks(SchedReader::new(&input, Sched::All), 4).len());
@@ -430,10 +446,10 @@ pub fn run(ctx: &Ctx) -> i32 {
         acc.distinct(&i);
     }
     acc.sample(json!({"asan_shards": shards, "cases_per_shard": cases_per_shard, "miri_cases_per_shard": miri_cases, "example_shard_command": format!("{bin} workload --seed {} --shard 0 --of {shards} --cases {cases_per_shard}", ctx.seed)}));
-    let rule = format!("AddressSanitizer+LeakSanitizer: {} shards x {} corpus inputs (mixed corpus, UTF-16/32 re-encodings, every fifth one a ~45 KiB YAML text with multi-byte characters on every alignment around the 8/16/24/32 KiB read boundaries) each driven as YAML explicit and detected through the public API with read sizes 1..17 / random / whole, reader errors at sampled offsets, over-reporting readers (excess 1..64, first/second/third call) straight into the raw parser and the chunker via the hook and through the public API, early drop of the parser after EVERY event count, chunker abandoned after one document, re-encoder surrogate/range boundary units; Miri: {} shards x {} seed inputs of the same workload; valgrind memcheck on the release binary in the thorough tier; conservation of Parser/Event new vs drop; distinct non-trivial = inputs driven", shards, cases_per_shard, shards, miri_cases);
+    let rule = format!("AddressSanitizer+LeakSanitizer: {} shards x {} corpus inputs (mixed corpus, UTF-16/32 re-encodings, every fifth one a ~45 KiB YAML text with multi-byte characters on every alignment around the 8/16/24/32 KiB read boundaries) each driven as YAML explicit and detected through the public API with read sizes 1..17 / random / whole, reader errors at sampled offsets, over-reporting readers (excess 1..64, first/second/third call) straight into the raw parser and the chunker via the hook and through the public API, readers that panic inside read() or in their destructor, safe readers that look at the buffer's old contents before filling it or report n bytes having stored n-1 (sound only if the buffer handed out is initialised memory; an uninitialised one is a Miri report), early drop of the parser after EVERY event count, chunker abandoned after one document, re-encoder surrogate/range boundary units; Miri: {} shards x {} seed inputs of the same workload; valgrind memcheck on the release binary in the thorough tier; conservation of Parser/Event new vs drop; distinct non-trivial = inputs driven", shards, cases_per_shard, shards, miri_cases);
     let mut extra = serde_json::Map::new();
     extra.insert("explanation".into(), json!("sanitizer verdict: zero AddressSanitizer/LeakSanitizer/Miri reports over the executed workload; a clean run says nothing about paths the workload did not reach"));
-    let mut f = Finish { ctx, level: "other", rule, assumptions: vec!["red-zone tools miss intra-object overflows; Miri covers part of that gap on the smaller workload".into(), "panics are an allowed outcome for contract-violating readers and are counted".into()], extra, exhaustive: false, min_distinct: 100, must_reach: vec![("leak_detector_selftest_fired".into(), 1), ("asan_shards_clean".into(), shards as u64), ("miri_shards_clean".into(), shards as u64), ("hit_READ_HANDLER_OVER_REPORT".into(), 10), ("hit_READ_HANDLER_ERROR".into(), 10), ("early_drop_points".into(), 1000), ("inputs_boundary_straddling".into(), 50), ("readers_panicking_in_drop".into(), 100)] };
+    let mut f = Finish { ctx, level: "other", rule, assumptions: vec!["red-zone tools miss intra-object overflows; Miri covers part of that gap on the smaller workload".into(), "panics are an allowed outcome for contract-violating readers and are counted".into()], extra, exhaustive: false, min_distinct: 100, must_reach: vec![("leak_detector_selftest_fired".into(), 1), ("asan_shards_clean".into(), shards as u64), ("miri_shards_clean".into(), shards as u64), ("hit_READ_HANDLER_OVER_REPORT".into(), 10), ("hit_READ_HANDLER_ERROR".into(), 10), ("early_drop_points".into(), 1000), ("inputs_boundary_straddling".into(), 50), ("readers_panicking_in_drop".into(), 100), ("lazy_reader_api_returned".into(), 100)] };
     if !acc.violations.is_empty() {
         f.must_reach.clear();
     }
